@@ -475,3 +475,121 @@ Fixpoint valid_from (known : list id) (l : list stm) (assigned odedefs : list id
       && valid_from known tl assigned (amts ++ odedefs)
   end.
 Definition g_valid (known : list id) (l : list stm) : bool := valid_from known l [] [].
+
+(* ---- mu_reference_model (modeling/expressions.py) -------------------------------------------------
+   _find_eta_assignments: over statements.before_odes, i = n-1 .. 0: a statement is selected when its symbol
+   was not "found" yet, it mentions an eta, and the full expression of its rhs over statements[:i] mentions
+   exactly one eta; then all its symbols are added to `found`. *)
+Fixpoint before_odes (l : list stm) : list stm :=
+  match l with
+  | [] => []
+  | SOde _ _ :: _ => []
+  | st :: tl => st :: before_odes tl
+  end.
+
+Definition inter_count (etas syms : list id) : nat := length (filter (fun e => memp e syms) etas).
+
+(* [rl] = statements i, i-1, ..., 0 (reversed prefix); statements[:i].full_expression(e) substitutes the
+   statements i-1, ..., 0 in this order *)
+Fixpoint find_eta_rev (etas : list id) (rl : list stm) (i : nat) (found : list id) : list nat :=
+  match rl with
+  | [] => []
+  | SAssign s e :: tl =>
+      if negb (memp s found) && interp_nonempty etas (s :: free_syms e)
+         && Nat.eqb (inter_count etas (free_syms (fold_left subs1 tl e))) 1
+      then i :: find_eta_rev etas tl (pred i) (s :: free_syms e ++ found)
+      else find_eta_rev etas tl (pred i) found
+  | SOde _ _ :: tl => find_eta_rev etas tl (pred i) found
+  end.
+
+Definition find_eta_assignments (etas : list id) (l : list stm) : list nat :=
+  let b := before_odes l in find_eta_rev etas (rev b) (pred (length b)) [].
+
+(* [etas] = the etas of the model in order, each with its symbol mu_<index>;
+   eta = next(iter(etas.intersection(assignment.expression.free_symbols))) *)
+Definition eta_of (etas : list (id * id)) (e : expr) : option (id * id) :=
+  find (fun em => memp (fst em) (free_syms e)) etas.
+
+(* [table]: original statement index -> (mu_expr, new_def): what sympy's as_independent / subs / solve answered
+   (engines: observed, and validated by the solution property, Check tag 52) *)
+Inductive mu_act := MKeep | MRewrite (mu : id) (m : expr) (p : id) (new : expr) | MFail.
+
+Definition mu_action (etas : list (id * id)) (table : list (nat * (expr * expr))) (sel : list nat) (i : nat) (st : stm)
+  : mu_act :=
+  if memn i sel then
+    match st with
+    | SAssign p old =>
+        match eta_of etas old with
+        | Some (_, mu) =>
+            if memp mu (free_syms old) then MKeep          (* mu reference already used: ignore *)
+            else match find (fun kv => Nat.eqb (fst kv) i) table with
+                 | Some (_, (m, new)) => MRewrite mu m p new
+                 | None => MFail
+                 end
+        | None => MFail                                      (* StopIteration *)
+        end
+    | SOde _ _ => MFail
+    end
+  else MKeep.
+
+(* statements[0:i] + (mu = mu_expr) + (P = new_def) + statements[i+1:] for every selected statement *)
+Fixpoint mu_walk (etas : list (id * id)) (table : list (nat * (expr * expr))) (sel : list nat)
+         (l : list stm) (i : nat) : option (list stm) :=
+  match l with
+  | [] => Some []
+  | st :: tl =>
+      match mu_walk etas table sel tl (S i) with
+      | None => None
+      | Some b =>
+          match mu_action etas table sel i st with
+          | MKeep => Some (st :: b)
+          | MRewrite mu m p new => Some (SAssign mu m :: SAssign p new :: b)
+          | MFail => None
+          end
+      end
+  end.
+
+Definition mu_reference (etas : list (id * id)) (table : list (nat * (expr * expr))) (l : list stm)
+  : option (list stm) :=
+  mu_walk etas table (find_eta_assignments (map fst etas) l) l 0.
+
+(* the mu symbols that the walk inserts *)
+Fixpoint inserted_mus (etas : list (id * id)) (table : list (nat * (expr * expr))) (sel : list nat)
+         (l : list stm) (i : nat) : list id :=
+  match l with
+  | [] => []
+  | st :: tl =>
+      match mu_action etas table sel i st with
+      | MRewrite mu _ _ _ => mu :: inserted_mus etas table sel tl (S i)
+      | _ => inserted_mus etas table sel tl (S i)
+      end
+  end.
+
+(* the inserted mu symbols are fresh: no statement of the program mentions them *)
+Definition g_mu_fresh (etas : list (id * id)) (table : list (nat * (expr * expr))) (sel : list nat) (l : list stm)
+  : bool :=
+  negb (interp_nonempty (inserted_mus etas table sel l 0) (all_ssyms l)).
+
+
+(* ---- greekify_model(named_subscripts=False): the renaming table handed to rename_symbols ----------------
+   subs[theta_i] = theta_<i>; for the lower triangle of random_variables.covariance_matrix, non-zero entries:
+   subs[elt] = omega_<row><col>; then THE SAME matrix again: subs[elt] = sigma_<row><col> (the code reads
+   `sigma = model.random_variables.covariance_matrix`, so every omega ends up named sigma_<row><col>);
+   subs[eta_i] = eta_<i>; subs[eps_i] = epsilon_<i>.  Names are strings: the namers [tn], [on], [sn], [en], [pn]
+   stand for f"theta_{i}" etc.  A Python dict: a later assignment to the same key wins, so the table is the
+   list of assignments in reverse order (first match = last assignment). *)
+Definition greek_assignments (tn en pn : nat -> id) (on sn : nat -> nat -> id)
+           (thetas : list id) (cov : list (nat * nat * id)) (etas epss : list id) : list (id * id) :=
+  map (fun it => (snd it, tn (fst it))) (enum_from 1 thetas)
+  ++ map (fun rce => (snd rce, on (fst (fst rce)) (snd (fst rce)))) cov
+  ++ map (fun rce => (snd rce, sn (fst (fst rce)) (snd (fst rce)))) cov
+  ++ map (fun it => (snd it, en (fst it))) (enum_from 1 etas)
+  ++ map (fun it => (snd it, pn (fst it))) (enum_from 1 epss).
+
+Definition greek_table (tn en pn : nat -> id) (on sn : nat -> nat -> id)
+           (thetas : list id) (cov : list (nat * nat * id)) (etas epss : list id) : list (id * id) :=
+  rev (greek_assignments tn en pn on sn thetas cov etas epss).
+
+(* two renaming tables rename every symbol of [keys] alike *)
+Definition same_renaming (d d' : list (id * id)) (keys : list id) : bool :=
+  forallb (fun k => Pos.eqb (ren d k) (ren d' k)) keys.
